@@ -164,6 +164,7 @@ type hijackWatch struct {
 	sync.Mutex
 	source  watch.Interface
 	result  chan watch.Event
+	done    chan struct{}
 	stopped bool
 }
 
@@ -171,6 +172,7 @@ func newHijackWatch(source watch.Interface) watch.Interface {
 	w := &hijackWatch{
 		source: source,
 		result: make(chan watch.Event),
+		done:   make(chan struct{}),
 	}
 	go w.receive()
 	return w
@@ -181,6 +183,7 @@ func (w *hijackWatch) Stop() {
 	defer w.Unlock()
 	if !w.stopped {
 		w.stopped = true
+		close(w.done)
 		w.source.Stop()
 	}
 }
@@ -191,6 +194,8 @@ func (w *hijackWatch) receive() {
 	defer utilruntime.HandleCrash()
 	for {
 		select {
+		case <-w.done:
+			return
 		case event, ok := <-w.source.ResultChan():
 			if !ok {
 				return
@@ -205,9 +210,14 @@ func (w *hijackWatch) receive() {
 				}
 				object = sts
 			}
-			w.result <- watch.Event{
+			// do not block forever on a consumer that stopped the watch and left
+			select {
+			case w.result <- watch.Event{
 				Type:   event.Type,
 				Object: object,
+			}:
+			case <-w.done:
+				return
 			}
 		}
 	}
